@@ -26,7 +26,7 @@ ASSUMPTIONS = [
 SHARDS = {'quick': 8, 'thorough': 16}
 BUDGET_S = {'quick': 32, 'thorough': 560}
 N_PROGRAMS = {'quick': 72, 'thorough': 2000}
-MIN_OBS = {'pairs_compared': {'quick': 200, 'thorough': 4000}}
+MIN_OBS = {'pairs_compared': {'quick': 80, 'thorough': 1500}}
 
 RESERVED = set(keyword.kwlist) | set(dir(__builtins__)) | {'self', 'cls', 'super', 'name', 'value', 'on', 'raw', 'ref', 'addr', 'const', 'new', 'empty', 'copy', 'move', 'down', 'as_a', 'Embed', 'Enum', 'Callable',
 	'append', 'insert', 'pop', 'items', 'values', 'keys', 'get', 'startswith', 'endswith', 'extend', 'clear', 'find', 'enum', 'collections', 'abc', 'err',
